@@ -4,9 +4,11 @@ package props
 // JSON codec pair with generated remote addresses, scripted hosts.
 
 import (
+	"bytes"
 	"context"
 	"crypto/ecdsa"
 	"crypto/sha256"
+	"encoding/gob"
 	"encoding/json"
 	"errors"
 	"fmt"
@@ -53,8 +55,8 @@ func mkIdent(label string) ident {
 }
 
 var (
-	identOnce sync.Once
-	nodeIdents []ident
+	identOnce    sync.Once
+	nodeIdents   []ident
 	walletIdents []ident
 )
 
@@ -358,3 +360,7 @@ func sortStrings(s []string) { sort.Strings(s) }
 func removeAll(dir string) { os.RemoveAll(dir) }
 
 func vtRule(id, rule string) { vt.For(id).Rule(rule) }
+
+func gobEncode(w io.Writer, v interface{}) error { return gob.NewEncoder(w).Encode(v) }
+
+func gobDecode(b []byte, v interface{}) error { return gob.NewDecoder(bytes.NewReader(b)).Decode(v) }
